@@ -20,7 +20,9 @@ RECURSIVE SeqsUpTo(_, _)
 SeqsUpTo(S, n) == IF n = 0 THEN {<<>>} ELSE LET R == SeqsUpTo(S, n - 1) IN R \cup {Append(s, c) : s \in R, c \in S}
 
 (* ================================ C10 ================================ *)
-Alpha10 == {"<", ">", "&", ";", "#", "\"", "'", "a", "3", "4", "9", "x", " ", "$e$", ","}
+\* (a backslash is an ordinary character of a literal unless the quote character follows it; a literal that ENDS in a
+\* backslash cannot be written - the backslash would take the closing quote - and is left out)
+Alpha10 == {"<", ">", "&", ";", "#", "\"", "'", "a", "3", "4", "9", "x", " ", "$e$", ",", "\\"}
 \* the specification of escaping (C10): no raw angle brackets, every '&' becomes an entity, quotes stay as written
 EscCh(c) == CASE c = "<" -> <<"&", "l", "t", ";">> [] c = ">" -> <<"&", "g", "t", ";">>
               [] c = "&" -> <<"&", "a", "m", "p", ";">> [] OTHER -> <<c>>
@@ -53,7 +55,8 @@ LitSrc(l, q) == q \o Cat(Quoted(l, q)) \o q
 Interesting10 == {<<"&", "#", "3", "4", ";">>, <<"&", "#", "3", "9", ";">>, <<"&", "a", "&", "#", "3", "4", ";">>,
                   <<"<", "&", "#", "3", "9", ";", ">">>, <<"&", "&", "#", "3", "4", ";", ";">>,
                   <<"\"", "&", "#", "3", "4", ";", "'">>, <<"<", "a", " ", "x", "=", "'", "3", "'", ">">>,
-                  <<"&", "l", "t", ";">>, <<"&", "a", "m", "p", ";", "l", "t", ";">>, <<"$e$", "<", "$e$">>}
+                  <<"&", "l", "t", ";">>, <<"&", "a", "m", "p", ";", "l", "t", ";">>, <<"$e$", "<", "$e$">>,
+                  <<"a", "\\", "\\", "b">>, <<"\\", "\\", "\\", "\\", "s">>, <<"<", "\\", "\\", "\"", ">">>, <<"\\", "'", "\\", "\\", "x">>}
 \* usage contexts of C10: [src, out] for literal source L, escaped text E and raw text R
 Ctx10(L, E, R) ==
   {[src |-> "{{ " \o L \o " }}", out |-> E, c |-> "print"],
@@ -95,7 +98,8 @@ Pairs10 == UNION {LET l2 == Escape(l)  L1 == LitSrc(l, q)  L2 == LitSrc(l2, q) I
                    [src |-> "{{ " \o L2 \o ".raw().len() > 999 ? 1 : \"\" }}{{ " \o L1 \o " }}", out |-> Cat(Escape(l)), c |-> "print", lit |-> Cat(l)],
                    [src |-> "{{ [" \o L1 \o ", " \o L2 \o "][1].raw() }}", out |-> Cat(l2), c |-> "raw", lit |-> Cat(l2)],
                    [src |-> "{{ [" \o L2 \o ".raw(), " \o L1 \o ".raw()][1] }}", out |-> Cat(l), c |-> "raw", lit |-> Cat(l)]} : l \in PairLits, q \in {"\"", "'"}}
-Cases10(lits) == OtherQuote10 \cup Pairs10 \cup UNION {{[src |-> c.src, out |-> c.out, c |-> c.c, lit |-> Cat(l)] : c \in Ctx10(LitSrc(l, q), Cat(Escape(l)), Cat(l))} : l \in lits, q \in {"\"", "'"}}
+Writable(l) == l = <<>> \/ l[Len(l)] # "\\"
+Cases10(lits) == OtherQuote10 \cup Pairs10 \cup UNION {{[src |-> c.src, out |-> c.out, c |-> c.c, lit |-> Cat(l)] : c \in Ctx10(LitSrc(l, q), Cat(Escape(l)), Cat(l))} : l \in {x \in lits : Writable(x)}, q \in {"\"", "'"}}
 \* The verdict for escaped contexts uses C10's own predicates (no raw angle bracket, every & starts an entity, quotes as
 \* written, unescaping gives the literal back), so that another entity spelling is not an alarm; `esc` is the
 \* specification's rendering, kept for diagnosis. raw() contexts must give exactly the original text.
